@@ -37,7 +37,7 @@ func newWSHandler(host string, dial dialFunc, conn gkm.Gauge) http.Handler {
 			return
 		}
 
-		in, _, err := hj.Hijack()
+		in, inbuf, err := hj.Hijack()
 		if err != nil {
 			log.Printf("[ERROR] Hijack error for %s. %s", r.URL, err)
 			http.Error(w, "hijack error", http.StatusInternalServerError)
@@ -64,6 +64,18 @@ func newWSHandler(host string, dial dialFunc, conn gkm.Gauge) http.Handler {
 			log.Printf("[ERROR] Error copying request for %s. %s", r.URL, err)
 			http.Error(w, "error copying request", http.StatusInternalServerError)
 			return
+		}
+
+		// What the client has sent after the request (in the same segment,
+		// or before the connection was taken over) has been read by the http
+		// server already: it is the beginning of the client's stream.
+		var early []byte
+		if n := inbuf.Reader.Buffered(); n > 0 {
+			early = make([]byte, n)
+			if _, err := io.ReadFull(inbuf.Reader, early); err != nil {
+				log.Printf("[ERROR] Error reading buffered data for %s. %s", r.URL, err)
+				return
+			}
 		}
 
 		// read the initial response to check whether we get an HTTP/1.1 101 ... response
@@ -119,6 +131,13 @@ func newWSHandler(host string, dial dialFunc, conn gkm.Gauge) http.Handler {
 		if m, err := in.Write(b); err != nil || n != m {
 			log.Printf("[ERROR] Error sending handshake for %s: %s", r.URL, err)
 			return
+		}
+
+		if len(early) > 0 {
+			if _, err := out.Write(early); err != nil {
+				log.Printf("[ERROR] Error sending buffered data for %s: %s", r.URL, err)
+				return
+			}
 		}
 
 		// When one side finishes sending, pass the end of its stream on
